@@ -1,10 +1,23 @@
 /-
 C07 — external-data layout is well formed; save restores the model (property theorems).
-Model: `IrVerif/Model/Layout.lean`; helper lemmas: `IrVerif/Lemmas/Layout.lean`.
+Model: `IrVerif/Model/Layout.lean`; helper lemmas: `IrVerif/Lemmas/Layout*.lean`.
 Core Lean only.
+
+What is claimed for which backend:
+* raw data files: offsets (order, disjointness, alignment, file size), sharding, shard names,
+  classification by threshold with every value paired with its own record, read-back of every
+  externalised tensor from the written files (`C07_roundtrip`, `C07_roundtrip_value`), order
+  independence of the writes, restoration of the model at every failure point;
+* safetensors: sharding, shard names, classification by threshold (shard and length of every
+  record), restoration of the model.  The layout INSIDE a safetensors file is the library's:
+  there is no offset or read-back theorem for that backend (`placeSt` records offset 0); the
+  harness oracle checks non-overlap, containment and payload bytes on every generated case.
+`readAt`/`writeAt` are the model of file reads and writes; they are compared with real files and
+with `ExternalTensor.tobytes()` of the reloaded model through `layout.image` / `layout.read`.
 -/
 import IrVerif.Lemmas.Layout
 import IrVerif.Lemmas.LayoutNames
+import IrVerif.Lemmas.LayoutSave
 namespace IrVerif.Layout
 
 /-! ## Offsets in one data file -/
@@ -100,17 +113,20 @@ theorem aligned_from (al : Option Nat) (thr : Nat) (cur : Nat) (sizes : List Nat
         exact ⟨alignOffset_aligned _ _ _ _ hlt, alignOffset_lt _ _ _ _⟩
     · exact ih _ p hp
 
-/-- **C07_aligned**: with `alignment = some a` every tensor longer than `align_threshold` starts
-    at a multiple of `max 4096 a`, the padding before it is shorter than that factor, and every
-    other tensor starts exactly where the previous one ended; with `alignment = none` the file
-    is densely packed.  The first tensor starts at 0. -/
+/-- **C07_aligned**: pair every recorded range with the end of the range before it (0 for the
+    first).  With `alignment = some a` every tensor longer than `align_threshold` starts at a
+    multiple of `max 4096 a` and the padding before it is shorter than that factor; every other
+    tensor starts exactly where the previous one ended; with `alignment = none` the file is
+    densely packed. -/
 theorem C07_aligned (al : Option Nat) (thr : Nat) (sizes : List Nat) :
-    ∀ p ∈ withPrevEnd al thr 0 sizes,
+    ∀ p ∈ List.zip (0 :: (computeInfos al thr sizes).map Info.stop) (computeInfos al thr sizes),
       p.1 ≤ p.2.offset ∧
       (al = none ∨ p.2.length ≤ thr → p.2.offset = p.1) ∧
       (∀ a, al = some a → thr < p.2.length →
-        p.2.offset % max 4096 a = 0 ∧ p.2.offset < p.1 + max 4096 a) :=
-  aligned_from al thr 0 sizes
+        p.2.offset % max 4096 a = 0 ∧ p.2.offset < p.1 + max 4096 a) := by
+  unfold computeInfos
+  rw [← withPrevEnd_eq_zip]
+  exact aligned_from al thr 0 sizes
 
 theorem C07_first_at_zero (al : Option Nat) (thr : Nat) (s : Nat) (rest : List Nat) :
     (computeInfos al thr (s :: rest)).head? = some ⟨0, s⟩ := by
@@ -322,80 +338,81 @@ theorem C07_shard_limit_st (limit : Nat) (ts : List α) :
 
 end ShardSt
 
-/-- **C07_D62_witness**: the safetensors sharder as it is in the unfixed source (size test
-    instead of emptiness test) violates the shard-limit statement: sizes `[0, 100]` with limit
-    10 give one shard of 100 bytes holding two tensors. -/
-theorem C07_D62_witness :
-    ∃ sh ∈ shardStGoUnfixed id 10 [] 0 [0, 100], 10 < (sh.map id).sum ∧ sh.length ≠ 1 :=
+/-- the safetensors sharder as it was before fix D62 (`current_shard_size > 0` instead of an
+    emptiness test); not part of the model, kept to show what the emptiness test is for -/
+def shardStGoPreD62 (limit : Nat) : List Nat → Nat → List Nat → List (List Nat)
+  | cur, _, [] => [cur]
+  | cur, sz, t :: rest =>
+    if sz + t > limit ∧ sz > 0 then cur :: shardStGoPreD62 limit [t] (0 + t) rest
+    else shardStGoPreD62 limit (cur ++ [t]) (sz + t) rest
+
+-- sizes [0, 100] with limit 10: one shard of 100 bytes holding two tensors (the statement of
+-- `C07_shard_limit_st` fails for the pre-fix sharder)
+example : ∃ sh ∈ shardStGoPreD62 10 [] 0 [0, 100], 10 < sh.sum ∧ sh.length ≠ 1 :=
   ⟨[0, 100], by decide, by decide, by decide⟩
 
 /-! ## `save` restores the model -/
 
-theorem assignAll_not_mem (st : Store) (ps : List (Nat × Option Nat)) (v : Nat)
-    (h : ∀ p ∈ ps, p.1 ≠ v) : assignAll st ps v = st v := by
-  induction ps generalizing st with
-  | nil => rfl
-  | cons p ps ih =>
-    obtain ⟨w, t⟩ := p
-    simp only [assignAll]
-    rw [ih _ (fun q hq => h q (List.mem_cons_of_mem _ hq))]
-    have : w ≠ v := h (w, t) (List.mem_cons_self ..)
-    simp [Store.set, Ne.symm this]
-
-theorem assignAll_saved (st0 st : Store) (vs : List Nat) (v : Nat) (hv : v ∈ vs) :
-    assignAll st (vs.map fun w => (w, st0 w)) v = st0 v := by
-  induction vs generalizing st with
-  | nil => simp at hv
-  | cons w rest ih =>
-    simp only [List.map_cons, assignAll]
-    by_cases hr : v ∈ rest
-    · exact ih _ hr
-    · have hvw : v = w := by
-        rcases List.mem_cons.mp hv with h | h
-        · exact h
-        · exact absurd h hr
-      subst hvw
-      rw [assignAll_not_mem]
-      · simp [Store.set]
-      · intro p hp
-        simp only [List.mem_map] at hp
-        obtain ⟨u, hu, rfl⟩ := hp
-        intro h; exact hr (h ▸ hu)
-
-/-- **C07_model_restored**: whatever `unload_from_model` re-pointed (any assignments to
-    collected initializer values, the same value possibly listed twice) and wherever the save
-    stopped — returned, or raised during argument checks, unloading/writing, serialization or
-    writing the proto — every value holds the tensor object it held before the call. -/
-theorem C07_model_restored (st : Store) (inits : List Nat) (repoint : List (Nat × Option Nat))
-    (fail : Fail) (hrp : ∀ p ∈ repoint, p.1 ∈ inits) :
-    (saveStore st inits repoint fail).2 = st := by
+theorem saveRun_restored (st : Store) (plan : SavePlan) (stop : Option Nat)
+    (h : ∀ v t, Step.assign v t ∈ plan.prog → v ∈ plan.snapshot) :
+    (saveRun st plan stop).2 = st := by
   funext v
-  have key : ∀ mid : Store, (∀ w, w ∉ inits → mid w = st w) →
-      assignAll mid (inits.map fun w => (w, st w)) v = st v := by
-    intro mid hmid
-    by_cases hv : v ∈ inits
-    · exact assignAll_saved st mid inits v hv
-    · rw [assignAll_not_mem]
-      · exact hmid v hv
-      · intro p hp
-        simp only [List.mem_map] at hp
-        obtain ⟨u, hu, rfl⟩ := hp
-        intro h; exact hv (h ▸ hu)
-  have hrep : ∀ w, w ∉ inits → assignAll st repoint w = st w := by
-    intro w hw
-    apply assignAll_not_mem
-    intro p hp h
-    exact hw (h ▸ hrp p hp)
-  cases fail with
-  | early => rfl
-  | unload => exact key st (fun _ _ => rfl)
-  | none => exact key _ hrep
-  | serialize => exact key _ hrep
-  | protoSave => exact key _ hrep
+  simp only [saveRun]
+  by_cases hv : v ∈ plan.snapshot
+  · exact assignAll_saved st _ plan.snapshot v hv
+  · rw [assignAll_not_mem]
+    · apply execSteps_untouched
+      intro t ht
+      apply hv
+      apply h v t
+      cases stop with
+      | none => exact ht
+      | some n => exact List.mem_of_mem_take ht
+    · intro p hp
+      simp only [List.mem_map] at hp
+      obtain ⟨u, hu, rfl⟩ := hp
+      intro e; exact hv (e ▸ hu)
 
-/-- what serialization sees is the re-pointed model (the restore happens afterwards) -/
-theorem C07_mid_is_repointed (st : Store) (inits : List Nat) (repoint : List (Nat × Option Nat)) :
-    (saveStore st inits repoint .none).1 = assignAll st repoint := rfl
+/-- **C07_model_restored**: the save is the effect sequence of the source — remember the
+    tensors, (validate, load small external tensors, write, re-point, serialize, write the
+    proto), and in `finally` put the remembered tensors back.  For every initializer list,
+    threshold and store, and wherever an exception surfaces (`stop = some n`: after any number
+    `n` of completed steps, in the safetensors backend also between the early re-pointing of
+    small external tensors and the writes) or if none does (`stop = none`), every value cell
+    holds afterwards the tensor object it held before — for both backends.  (The safetensors
+    snapshot holds only values with a non-string tensor: the proof shows nothing else is ever
+    re-pointed.) -/
+theorem C07_model_restored (vs : List Init) (thr : Int) (fresh : Nat) (st : Store)
+    (stop : Option Nat) :
+    (saveRun st (rawPlan vs thr fresh) stop).2 = st ∧
+    (saveRun st (stPlan vs thr fresh) stop).2 = st := by
+  constructor
+  · apply saveRun_restored
+    intro v t hvt
+    have h := (mem_rawPlan vs thr fresh v t).mp hvt
+    have hlt : v < vs.length := by
+      unfold splitRaw at h
+      rw [splitRawGo_eq] at h
+      rcases h.1 with h1 | h1
+      · obtain ⟨j, hj, rfl, _⟩ := (splitBy_mem_fst _ _ 0 vs v).mp h1; simpa using hj
+      · obtain ⟨j, hj, rfl, _⟩ := (splitBy_mem_snd _ _ 0 vs v).mp h1; simpa using hj
+    simpa [rawPlan] using hlt
+  · apply saveRun_restored
+    intro v t hvt
+    have h := (mem_stPlan vs thr fresh v t).mp hvt
+    unfold splitSt at h
+    rw [splitStGo_eq] at h
+    have hprop : ∃ hlt : v < vs.length, vs[v].hasConst = true ∧ vs[v].isString = false := by
+      rcases h.1 with h1 | h1
+      · obtain ⟨j, hj, rfl, hp⟩ := (splitBy_mem_fst _ _ 0 vs v).mp h1
+        simp only [extSt, Bool.and_eq_true, Bool.not_eq_true'] at hp
+        exact ⟨by simpa using hj, by simpa using hp.1.1, by simpa using hp.1.2⟩
+      · obtain ⟨j, hj, rfl, hp⟩ := (splitBy_mem_snd _ _ 0 vs v).mp h1
+        simp only [memSt, Bool.and_eq_true, Bool.not_eq_true'] at hp
+        exact ⟨by simpa using hj, by simpa using hp.1.1.1, by simpa using hp.1.1.2⟩
+    obtain ⟨hlt, hc, hs⟩ := hprop
+    simp only [stPlan, List.mem_filter, List.mem_range, Bool.and_eq_true, Bool.not_eq_true']
+    simp [hlt, List.getD_eq_getElem?_getD, hc, hs]
 
 /-! ## The data file does not depend on the order of the writes -/
 
@@ -638,40 +655,6 @@ theorem C07_dataFiles_schedule (bs : List (List Nat)) (maxShard : Option Nat) (a
 
 /-! ## Shard file names -/
 
-/-- **C07_filename_inj**: for a fixed base name and shard count, distinct shard indices give
-    distinct file names (both backends: `suffixCount = none` for raw data files, `some 1` for
-    safetensors; any base name, dotted stems and sub-directories included). -/
-theorem C07_filename_inj (base : List Char) (total : Nat) (sc : Option Nat) (i j : Nat)
-    (ht : total ≠ 1) (h : shardFilename base i total sc = shardFilename base j total sc) : i = j := by
-  rw [shardFilename_eq _ _ _ _ ht, shardFilename_eq _ _ _ _ ht] at h
-  split at h
-  · exact shardBasename_injective _ _ _
-      (posixJoin_injective _ (shardBasename_head _ _ _ _ _) h)
-  · exact shardBasename_injective _ _ _ h
-
-/-- **C07_filename_parts**: a single shard keeps the base name; otherwise the name is the
-    directory of the base name joined with `stem-XXXXX-of-YYYYY` followed by the extension
-    chain, where `stem ++ extensions` is exactly the original file name (nothing of a dotted
-    stem is lost), and the two counters print back to the shard index and count. -/
-theorem C07_filename_parts (base : List Char) (idx total : Nat) (sc : Option Nat) :
-    shardFilename base idx 1 sc = base ∧
-    (total ≠ 1 → ∃ stem ext : List Char,
-      stem ++ ext = (posixSplit base).2 ∧
-      valOf (pad5 idx) = idx ∧ valOf (pad5 total) = total ∧
-      shardFilename base idx total sc =
-        (if (posixSplit base).1 ≠ [] then posixJoin (posixSplit base).1 else id)
-          (stem ++ '-' :: pad5 idx ++ "-of-".toList ++ pad5 total ++ ext)) := by
-  constructor
-  · simp [shardFilename]
-  · intro ht
-    refine ⟨(peelSuffixes ((posixSplit base).2.length + 1) sc (posixSplit base).2 []).1,
-      (peelSuffixes ((posixSplit base).2.length + 1) sc (posixSplit base).2 []).2.reverse.flatten,
-      ?_, valOf_pad5 _, valOf_pad5 _, ?_⟩
-    · simpa using peelSuffixes_append ((posixSplit base).2.length + 1) sc (posixSplit base).2 []
-    · rw [shardFilename_eq _ _ _ _ ht]
-      unfold shardBasename
-      split <;> rfl
-
 /-- **C07_filename_dir**: a shard file lives in the directory of the base name, and its file
     name part is the stem/counter/extension string of `C07_filename_parts` (`posixpath.split`
     of the shard name returns the directory `posixpath.split` returns for the base name). -/
@@ -694,81 +677,142 @@ theorem C07_filename_dir (base : List Char) (idx total : Nat) (sc : Option Nat) 
     unfold posixSplit
     simp [(rfindSucc_eq_zero '/' f).mpr hf]
 
+/-- **C07_filename_inj**: for a fixed base name, distinct (shard index, shard count) pairs give
+    distinct file names — also across different shard counts (a re-save with another count
+    never reuses a name of the old layout), for both backends (`suffixCount = none` for raw data
+    files, `some 1` for safetensors) and any base name (dotted stems, sub-directories). -/
+theorem C07_filename_inj (base : List Char) (sc : Option Nat) (i j total total' : Nat)
+    (ht : total ≠ 1) (ht' : total' ≠ 1)
+    (h : shardFilename base i total sc = shardFilename base j total' sc) :
+    i = j ∧ total = total' := by
+  have h1 := congrArg posixSplit h
+  rw [C07_filename_dir base i total sc ht, C07_filename_dir base j total' sc ht'] at h1
+  exact shardBasename_injective2 _ _ (Prod.mk.inj h1).2
+
+/-- a sharded name never equals the single-file name of the same base -/
+theorem C07_filename_ne_base (base : List Char) (sc : Option Nat) (i j total : Nat) (ht : total ≠ 1) :
+    shardFilename base i total sc ≠ shardFilename base j 1 sc := by
+  intro h
+  have h1 := congrArg (fun p => (posixSplit p).2.length) h
+  simp only [C07_filename_dir base i total sc ht] at h1
+  have hb : shardFilename base j 1 sc = base := by simp [shardFilename]
+  rw [hb] at h1
+  have hsplit := peelSuffixes_append ((posixSplit base).2.length + 1) sc (posixSplit base).2 []
+  simp only [List.reverse_nil, List.flatten_nil, List.append_nil] at hsplit
+  have hl := congrArg List.length hsplit
+  simp only [shardBasename, List.length_append, List.length_cons] at h1 hl
+  omega
+
+/-- **C07_filename_parts**: a single shard keeps the base name; otherwise the name is the
+    directory of the base name joined with `stem-XXXXX-of-YYYYY` followed by the extension
+    chain, where
+    * `stem ++ extensions` is exactly the original file name (nothing of a dotted stem is lost),
+    * every extension starts with `.` and is an extension suffix in the sense of
+      `_is_extension_suffix` (ASCII letter, then letters, digits or `_`),
+    * at most `suffix_count` extensions are taken, and when that bound is not what stopped the
+      loop the stem has no further extension suffix (the chain is maximal),
+    * the two counters print back to the shard index and count. -/
+theorem C07_filename_parts (base : List Char) (idx total : Nat) (sc : Option Nat) :
+    shardFilename base idx 1 sc = base ∧
+    (total ≠ 1 → ∃ (stem : List Char) (exts : List (List Char)),
+      stem ++ exts.flatten = (posixSplit base).2 ∧
+      (∀ e ∈ exts, e.head? = some '.' ∧ isExtensionSuffix e = true) ∧
+      (∀ c, sc = some c → exts.length ≤ c) ∧
+      ((∀ c, sc = some c → exts.length < c) →
+        (splitext stem).2 = [] ∨ isExtensionSuffix (splitext stem).2 = false) ∧
+      valOf (pad5 idx) = idx ∧ valOf (pad5 total) = total ∧
+      shardFilename base idx total sc =
+        (if (posixSplit base).1 ≠ [] then posixJoin (posixSplit base).1 else id)
+          (stem ++ '-' :: pad5 idx ++ "-of-".toList ++ pad5 total ++ exts.flatten)) := by
+  constructor
+  · simp [shardFilename]
+  · intro ht
+    have hspec := peelSuffixes_spec ((posixSplit base).2.length + 1) sc (posixSplit base).2 []
+      (by omega)
+    obtain ⟨⟨new, hnew, hall⟩, hbound, hmax⟩ := hspec
+    simp only [List.nil_append] at hnew
+    refine ⟨(peelSuffixes ((posixSplit base).2.length + 1) sc (posixSplit base).2 []).1,
+      (peelSuffixes ((posixSplit base).2.length + 1) sc (posixSplit base).2 []).2.reverse,
+      ?_, ?_, ?_, ?_, valOf_pad5 _, valOf_pad5 _, ?_⟩
+    · simpa using peelSuffixes_append ((posixSplit base).2.length + 1) sc (posixSplit base).2 []
+    · intro e he
+      rw [hnew] at he
+      exact hall e (by simpa using he)
+    · intro c hc; simpa using hbound c hc
+    · intro h; exact hmax (fun c hc => by simpa using h c hc)
+    · rw [shardFilename_eq _ _ _ _ ht]
+      unfold shardBasename
+      split <;> rfl
+
 /-! ## Threshold split and re-pointing -/
 
-/-- what one initializer looks like after the unload step, given which class it is in -/
-def Expected (ext mem : Init → Bool) (v : Init) (r : NewConst) : Prop :=
-  if ext v then ∃ p, r = .external p ∧ p.length = v.nbytes
-  else if mem v then r = .memory
-  else r = .same
-
+/-- the two assignment loops of the unload step, for any classification `pe` (becomes
+    external) / `pm` (loaded to memory): the `c`-th selected initializer gets the `c`-th record -/
 theorem unload_generic (vs : List Init) (pe pm : Init → Bool)
     (hex : ∀ v, pe v = true → pm v = false)
     (places : List Placement)
-    (hplaces : places.map (·.length) =
-      ((splitBy pe pm 0 vs).1.map fun k => (vs.getD k default).nbytes))
+    (hplaces : places.length = (vs.filter pe).length)
     (k : Nat) (hk : k < vs.length) :
-    ∃ r, (assignZip (assignZip (List.replicate vs.length NewConst.same) (splitBy pe pm 0 vs).1
+    let res := assignZip (assignZip (List.replicate vs.length NewConst.same) (splitBy pe pm 0 vs).1
             (places.map NewConst.external))
-          (splitBy pe pm 0 vs).2 ((splitBy pe pm 0 vs).2.map fun _ => NewConst.memory))[k]? = some r ∧
-      Expected pe pm vs[k] r := by
+          (splitBy pe pm 0 vs).2 ((splitBy pe pm 0 vs).2.map fun _ => NewConst.memory)
+    (pe vs[k] = true → ∃ hc : (vs.take k).countP pe < places.length,
+        res[k]? = some (.external places[(vs.take k).countP pe])) ∧
+    (pe vs[k] = false → pm vs[k] = true → res[k]? = some .memory) ∧
+    (pe vs[k] = false → pm vs[k] = false → res[k]? = some .same) := by
+  intro res
   have hE := splitBy_mem_fst pe pm 0 vs
   have hM := splitBy_mem_snd pe pm 0 vs
   have hEs := nodup_of_sorted (splitBy_sorted_fst pe pm 0 vs)
   have hMs := nodup_of_sorted (splitBy_sorted_snd pe pm 0 vs)
+  have hidx := splitBy_index pe pm 0 vs
+  have hfil := splitBy_map_filter pe pm [] vs
+  simp only [List.length_nil, List.nil_append] at hfil
+  have hpl : places.length = (splitBy pe pm 0 vs).1.length := by
+    rw [hplaces, ← hfil]; simp
+  simp only [res]
   generalize hext : (splitBy pe pm 0 vs).1 = ext at *
   generalize hmem : (splitBy pe pm 0 vs).2 = mem at *
-  have hpl : places.length = ext.length := by
-    have := congrArg List.length hplaces; simpa using this
   have hEb : ∀ i ∈ ext, i < (List.replicate vs.length NewConst.same).length := by
     intro i hi; obtain ⟨j, hj, rfl, _⟩ := (hE i).mp hi; simpa using hj
   have hMb : ∀ i ∈ mem, i < (assignZip (List.replicate vs.length NewConst.same) ext
       (places.map NewConst.external)).length := by
     intro i hi; obtain ⟨j, hj, rfl, _⟩ := (hM i).mp hi
     rw [assignZip_length]; simpa using hj
-  unfold Expected
-  by_cases he : pe vs[k] = true
-  · have hkin : k ∈ ext := (hE k).mpr ⟨k, hk, by simp, he⟩
-    have hknot : k ∉ mem := by
-      intro hm
-      obtain ⟨j, hj, hkj, hp⟩ := (hM k).mp hm
-      have : j = k := by omega
-      subst this
-      rw [hex _ he] at hp; exact absurd hp (by simp)
+  have hnotE : pe vs[k] = false → k ∉ ext := by
+    intro he hm
+    obtain ⟨j, hj, hkj, hp⟩ := (hE k).mp hm
+    have : j = k := by omega
+    subst this; rw [he] at hp; exact absurd hp (by simp)
+  have hnotM : pm vs[k] = false → k ∉ mem := by
+    intro he hm
+    obtain ⟨j, hj, hkj, hp⟩ := (hM k).mp hm
+    have : j = k := by omega
+    subst this; rw [he] at hp; exact absurd hp (by simp)
+  refine ⟨?_, ?_, ?_⟩
+  · intro he
+    have hc := hidx k hk he
+    simp only [Nat.zero_add] at hc
+    generalize (vs.take k).countP pe = c at *
+    have hcl : c < ext.length := by
+      by_cases h : c < ext.length
+      · exact h
+      · rw [List.getElem?_eq_none (by omega)] at hc; cases hc
+    have hck : ext[c] = k := by
+      rw [List.getElem?_eq_getElem hcl] at hc; exact Option.some.inj hc
+    refine ⟨by omega, ?_⟩
+    rw [assignZip_not_mem _ _ _ _ (hnotM (hex _ he)), ← hck,
+      assignZip_mem _ _ _ hEs (by simp [hpl]) hEb c hcl]
+    simp [show c < places.length by omega]
+  · intro he hm
+    have hkin : k ∈ mem := (hM k).mpr ⟨k, hk, by simp, hm⟩
     obtain ⟨j, hj, hjk⟩ := List.getElem_of_mem hkin
     subst hjk
-    rw [assignZip_not_mem _ _ _ _ hknot,
-      assignZip_mem _ _ _ hEs (by simp [hpl]) hEb j hj]
-    have hjp : j < places.length := by omega
-    refine ⟨.external places[j], by simp [hjp], ?_⟩
-    simp only [he, if_true]
-    refine ⟨places[j], rfl, ?_⟩
-    have := congrArg (fun l => l[j]?) hplaces
-    simp only [List.getElem?_map, List.getElem?_eq_getElem hjp, List.getElem?_eq_getElem hj,
-      Option.map_some, Option.some.injEq] at this
-    rw [this]
-    simp [List.getD_eq_getElem?_getD, List.getElem?_eq_getElem hk]
-  · simp only [he, Bool.false_eq_true, if_false]
-    have hknotE : k ∉ ext := by
-      intro hm
-      obtain ⟨j, hj, hkj, hp⟩ := (hE k).mp hm
-      have : j = k := by omega
-      subst this; exact he hp
-    by_cases hm : pm vs[k] = true
-    · have hkin : k ∈ mem := (hM k).mpr ⟨k, hk, by simp, hm⟩
-      obtain ⟨j, hj, hjk⟩ := List.getElem_of_mem hkin
-      subst hjk
-      rw [assignZip_mem _ _ _ hMs (by simp) hMb j hj]
-      refine ⟨.memory, by simp [hj], ?_⟩
-      simp [hm]
-    · have hknotM : k ∉ mem := by
-        intro hmm
-        obtain ⟨j, hj, hkj, hp⟩ := (hM k).mp hmm
-        have : j = k := by omega
-        subst this; exact hm hp
-      rw [assignZip_not_mem _ _ _ _ hknotM, assignZip_not_mem _ _ _ _ hknotE]
-      refine ⟨.same, by simp [hk], ?_⟩
-      simp [hm]
+    rw [assignZip_mem _ _ _ hMs (by simp) hMb j hj]
+    simp [hj]
+  · intro he hm
+    rw [assignZip_not_mem _ _ _ _ (hnotM hm), assignZip_not_mem _ _ _ _ (hnotE he)]
+    simp [hk]
 
 theorem placeRaw_lengths (sizes : List Nat) (maxShard : Option Nat) (al : Option Nat) (thr : Nat) :
     (placeRaw sizes maxShard al thr).map (·.length) = sizes := by
@@ -800,40 +844,326 @@ theorem placeSt_lengths (sizes : List Nat) (maxShard : Option Nat) :
       simp [Function.comp_def]
   rw [this, hflat]
 
-/-- **C07_threshold** (raw data files): after `unload_from_model`, in declaration order, every
-    initializer with a (non-string) tensor of more than `size_threshold_bytes` bytes is a new
-    external tensor recorded with its own length; every other external one has been loaded to
-    memory; everything else (no tensor, string tensor, small in-memory tensor) is the same
-    object — for every shard limit and alignment.  Nothing is lost, duplicated or paired with
-    another tensor's record. -/
+/-- raw backend: the tensor of `v` becomes external (independent of the model: a value with a
+    non-string tensor of more than `thr` bytes) -/
+def becomesExternalRaw (thr : Int) (v : Init) : Bool :=
+  v.hasConst && !v.isString && decide ((v.nbytes : Int) > thr)
+
+/-- safetensors backend: at least `thr` bytes -/
+def becomesExternalSt (thr : Int) (v : Init) : Bool :=
+  v.hasConst && !v.isString && decide ((v.nbytes : Int) ≥ thr)
+
+theorem extRaw_eq (thr : Int) : extRaw thr = becomesExternalRaw thr := rfl
+
+theorem extSt_eq (thr : Int) : extSt thr = becomesExternalSt thr := by
+  funext v
+  simp only [extSt, becomesExternalSt]
+  congr 1
+  by_cases h : (v.nbytes : Int) < thr <;> simp [h] <;> omega
+
+/-- **C07_threshold** (raw data files).  For every initializer position `k`, every threshold,
+    shard limit and alignment, after `unload_from_model`:
+    * a value with a non-string tensor of more than `size_threshold_bytes` bytes holds a new
+      external tensor whose record is the `c`-th placement computed for the sizes of exactly
+      those tensors, where `c` is the number of such values before `k` (so each value is paired
+      with its own record, in declaration order — not merely with one of the right length);
+    * any other value whose (non-string) tensor was external holds an in-memory copy;
+    * every other value (no tensor, string tensor, small in-memory tensor) holds the same object. -/
 theorem C07_threshold (vs : List Init) (thr : Int) (maxShard : Option Nat) (al : Option Nat)
     (athr : Nat) (k : Nat) (hk : k < vs.length) :
-    (unloadRaw vs thr maxShard al athr).length = vs.length ∧
-    ∃ r, (unloadRaw vs thr maxShard al athr)[k]? = some r ∧
-      Expected (extRaw thr) (memRaw thr) vs[k] r := by
-  unfold unloadRaw splitRaw
-  rw [splitRawGo_eq]
-  refine ⟨by simp [assignZip_length], ?_⟩
-  apply unload_generic vs (extRaw thr) (memRaw thr) _ _ _ k hk
-  · intro v hv
-    simp only [extRaw, Bool.and_eq_true, decide_eq_true_eq] at hv
-    simp [memRaw, hv.2]
-  · exact placeRaw_lengths _ _ _ _
+    let res := unloadRaw vs thr maxShard al athr
+    let places := placeRaw ((vs.filter (becomesExternalRaw thr)).map (·.nbytes)) maxShard al athr
+    res.length = vs.length ∧
+    (vs[k].hasConst = true → vs[k].isString = false → (vs[k].nbytes : Int) > thr →
+      ∃ hc : (vs.take k).countP (becomesExternalRaw thr) < places.length,
+        res[k]? = some (.external places[(vs.take k).countP (becomesExternalRaw thr)])) ∧
+    (vs[k].hasConst = true → vs[k].isString = false → (vs[k].nbytes : Int) ≤ thr →
+      vs[k].isExternal = true → res[k]? = some .memory) ∧
+    (vs[k].hasConst = false ∨ vs[k].isString = true ∨
+      ((vs[k].nbytes : Int) ≤ thr ∧ vs[k].isExternal = false) → res[k]? = some .same) := by
+  intro res places
+  have hsizes : ((splitRaw thr vs).1.map fun i => (vs.getD i default).nbytes) =
+      (vs.filter (becomesExternalRaw thr)).map (·.nbytes) := by
+    unfold splitRaw; rw [splitRawGo_eq]
+    have := splitBy_map_filter (extRaw thr) (memRaw thr) [] vs
+    simp only [List.length_nil, List.nil_append] at this
+    rw [← extRaw_eq, ← this]; simp [Function.comp_def]
+  have hgen := unload_generic vs (extRaw thr) (memRaw thr)
+    (by intro v hv
+        simp only [extRaw, Bool.and_eq_true, decide_eq_true_eq] at hv
+        simp [memRaw, hv.2])
+    places
+    (by have := congrArg List.length (placeRaw_lengths
+          ((vs.filter (becomesExternalRaw thr)).map (·.nbytes)) maxShard al athr)
+        simpa [places, extRaw_eq] using this)
+    k hk
+  have hres : res = assignZip (assignZip (List.replicate vs.length NewConst.same)
+      (splitBy (extRaw thr) (memRaw thr) 0 vs).1 (places.map NewConst.external))
+      (splitBy (extRaw thr) (memRaw thr) 0 vs).2
+      ((splitBy (extRaw thr) (memRaw thr) 0 vs).2.map fun _ => NewConst.memory) := by
+    simp only [res, places, unloadRaw, ← hsizes]
+    unfold splitRaw; rw [splitRawGo_eq]
+  rw [hres]
+  simp only [← extRaw_eq] at hgen ⊢
+  refine ⟨by simp [assignZip_length], ?_, ?_, ?_⟩
+  · intro h1 h2 h3
+    exact hgen.1 (by simp [extRaw, h1, h2, h3])
+  · intro h1 h2 h3 h4
+    have hne : ¬ (vs[k].nbytes : Int) > thr := by omega
+    exact hgen.2.1 (by simp [extRaw, hne]) (by simp [memRaw, h1, h2, h4, hne])
+  · intro h
+    apply hgen.2.2
+    · rcases h with h | h | h
+      · simp [extRaw, h]
+      · simp [extRaw, h]
+      · have hne : ¬ (vs[k].nbytes : Int) > thr := by omega
+        simp [extRaw, hne]
+    · rcases h with h | h | h
+      · simp [memRaw, h]
+      · simp [memRaw, h]
+      · simp [memRaw, h.2]
 
-/-- **C07_threshold_st** (safetensors, with D60/D63 fixed): tensors of at least the threshold
-    become external, smaller external ones are loaded to memory, the rest is untouched. -/
+/-- **C07_threshold_st** (safetensors): the same with "at least `size_threshold_bytes`"; the
+    records carry shard and length only (offsets inside a safetensors file are the library's). -/
 theorem C07_threshold_st (vs : List Init) (thr : Int) (maxShard : Option Nat)
     (k : Nat) (hk : k < vs.length) :
-    (unloadSt vs thr maxShard).length = vs.length ∧
-    ∃ r, (unloadSt vs thr maxShard)[k]? = some r ∧ Expected (extSt thr) (memSt thr) vs[k] r := by
-  unfold unloadSt splitSt
-  rw [splitStGo_eq]
-  refine ⟨by simp [assignZip_length], ?_⟩
-  apply unload_generic vs (extSt thr) (memSt thr) _ _ _ k hk
-  · intro v hv
-    simp only [extSt, Bool.and_eq_true, Bool.not_eq_true', decide_eq_false_iff_not] at hv
-    simp [memSt, hv.2]
-  · exact placeSt_lengths _ _
+    let res := unloadSt vs thr maxShard
+    let places := placeSt ((vs.filter (becomesExternalSt thr)).map (·.nbytes)) maxShard
+    res.length = vs.length ∧
+    (vs[k].hasConst = true → vs[k].isString = false → (vs[k].nbytes : Int) ≥ thr →
+      ∃ hc : (vs.take k).countP (becomesExternalSt thr) < places.length,
+        res[k]? = some (.external places[(vs.take k).countP (becomesExternalSt thr)])) ∧
+    (vs[k].hasConst = true → vs[k].isString = false → (vs[k].nbytes : Int) < thr →
+      vs[k].isExternal = true → res[k]? = some .memory) ∧
+    (vs[k].hasConst = false ∨ vs[k].isString = true ∨
+      ((vs[k].nbytes : Int) < thr ∧ vs[k].isExternal = false) → res[k]? = some .same) := by
+  intro res places
+  have hsizes : ((splitSt thr vs).1.map fun i => (vs.getD i default).nbytes) =
+      (vs.filter (becomesExternalSt thr)).map (·.nbytes) := by
+    unfold splitSt; rw [splitStGo_eq]
+    have := splitBy_map_filter (extSt thr) (memSt thr) [] vs
+    simp only [List.length_nil, List.nil_append] at this
+    rw [← extSt_eq, ← this]; simp [Function.comp_def]
+  have hgen := unload_generic vs (extSt thr) (memSt thr)
+    (by intro v hv
+        simp only [extSt, Bool.and_eq_true, Bool.not_eq_true', decide_eq_false_iff_not] at hv
+        simp [memSt, hv.2])
+    places
+    (by have := congrArg List.length (placeSt_lengths
+          ((vs.filter (becomesExternalSt thr)).map (·.nbytes)) maxShard)
+        simpa [places, extSt_eq] using this)
+    k hk
+  have hres : res = assignZip (assignZip (List.replicate vs.length NewConst.same)
+      (splitBy (extSt thr) (memSt thr) 0 vs).1 (places.map NewConst.external))
+      (splitBy (extSt thr) (memSt thr) 0 vs).2
+      ((splitBy (extSt thr) (memSt thr) 0 vs).2.map fun _ => NewConst.memory) := by
+    simp only [res, places, unloadSt, ← hsizes]
+    unfold splitSt; rw [splitStGo_eq]
+  rw [hres]
+  simp only [← extSt_eq] at hgen ⊢
+  refine ⟨by simp [assignZip_length], ?_, ?_, ?_⟩
+  · intro h1 h2 h3
+    have hne : ¬ (vs[k].nbytes : Int) < thr := by omega
+    exact hgen.1 (by simp [extSt, h1, h2, hne])
+  · intro h1 h2 h3 h4
+    exact hgen.2.1 (by simp [extSt, h3]) (by simp [memSt, h1, h2, h3, h4])
+  · intro h
+    apply hgen.2.2
+    · rcases h with h | h | h
+      · simp [extSt, h]
+      · simp [extSt, h]
+      · simp [extSt, h.1]
+    · rcases h with h | h | h
+      · simp [memSt, h]
+      · simp [memSt, h]
+      · simp [memSt, h.2]
+
+/-- **C07_roundtrip_value**: initializer `k` reads back ITS OWN bytes.  Pair every initializer
+    with its `tobytes()` (`nbytes` = number of bytes).  For every threshold, shard limit and
+    alignment: if the value at position `k` has a non-string tensor above the threshold, then
+    after the save it holds an external tensor whose record `(shard, offset, length)` names one
+    of the written data files, and reading `(offset, length)` from that file returns exactly the
+    bytes of tensor `k`. -/
+theorem C07_roundtrip_value (vb : List (Init × List Nat))
+    (hlen : ∀ x ∈ vb, x.1.nbytes = x.2.length)
+    (thr : Int) (maxShard : Option Nat) (al : Option Nat) (athr : Nat)
+    (k : Nat) (hk : k < vb.length)
+    (h1 : vb[k].1.hasConst = true) (h2 : vb[k].1.isString = false)
+    (h3 : (vb[k].1.nbytes : Int) > thr) :
+    ∃ p img, (unloadRaw (vb.map (·.1)) thr maxShard al athr)[k]? = some (.external p) ∧
+      (saveRawFiles vb thr maxShard al athr none)[p.shard]? = some img ∧
+      readAt img p.offset p.length = vb[k].2 := by
+  have hk' : k < (vb.map (·.1)).length := by simpa using hk
+  have hvk : (vb.map (·.1))[k] = vb[k].1 := by simp
+  have hthr := (C07_threshold (vb.map (·.1)) thr maxShard al athr k hk').2.1
+    (by rw [hvk]; exact h1) (by rw [hvk]; exact h2) (by rw [hvk]; exact h3)
+  obtain ⟨hc, hres⟩ := hthr
+  have hthr' : ∃ p, (placeRaw (((vb.map (·.1)).filter (becomesExternalRaw thr)).map (·.nbytes))
+      maxShard al athr)[((vb.map (·.1)).take k).countP (becomesExternalRaw thr)]? = some p ∧
+      (unloadRaw (vb.map (·.1)) thr maxShard al athr)[k]? = some (.external p) :=
+    ⟨_, List.getElem?_eq_getElem hc, hres⟩
+  clear hres hc
+  obtain ⟨p, hp, hres⟩ := hthr'
+  -- the externalised positions and their bytes
+  have hidx := splitBy_index (extRaw thr) (memRaw thr) 0 (vb.map (·.1)) k hk'
+    (by rw [hvk]; simp [extRaw, h1, h2, h3])
+  simp only [Nat.zero_add, extRaw_eq] at hidx
+  have hfil := splitBy_map_filter (extRaw thr) (memRaw thr) [] (vb.map (·.1))
+  simp only [List.length_nil, List.nil_append, extRaw_eq] at hfil
+  have hmemE := splitBy_mem_fst (extRaw thr) (memRaw thr) 0 (vb.map (·.1))
+  simp only [extRaw_eq] at hmemE
+  generalize hcdef : ((vb.map (·.1)).take k).countP (becomesExternalRaw thr) = c at *
+  have hbs : extBytes vb thr =
+      (splitBy (becomesExternalRaw thr) (memRaw thr) 0 (vb.map (·.1))).1.map
+        fun i => (vb.getD i default).2 := by
+    unfold extBytes splitRaw; rw [splitRawGo_eq, extRaw_eq]
+  have hsizes : (extBytes vb thr).map List.length =
+      ((vb.map (·.1)).filter (becomesExternalRaw thr)).map (·.nbytes) := by
+    rw [hbs, ← hfil]
+    simp only [List.map_map]
+    apply List.map_congr_left
+    intro i hi
+    obtain ⟨j, hj, rfl, _⟩ := (hmemE i).mp hi
+    have hj' : j < vb.length := by simpa using hj
+    simp only [Function.comp, Nat.zero_add, List.getD_eq_getElem?_getD,
+      List.getElem?_eq_getElem hj', List.getElem?_eq_getElem hj, Option.getD_some, List.getElem_map]
+    exact (hlen _ (List.getElem_mem hj')).symm
+  rw [← hsizes] at hp
+  generalize hbsdef : extBytes vb thr = bs at *
+  have hbc : bs[c]? = some vb[k].2 := by
+    rw [hbs, List.getElem?_map, hidx]
+    simp [List.getD_eq_getElem?_getD, List.getElem?_eq_getElem hk]
+  have hmem : (p, vb[k].2) ∈ (placeRaw (bs.map List.length) maxShard al athr).zip bs := by
+    rw [List.mem_iff_getElem?]
+    refine ⟨c, ?_⟩
+    rw [List.getElem?_zip_eq_some]
+    exact ⟨hp, hbc⟩
+  obtain ⟨img, himg, hread⟩ := C07_roundtrip bs maxShard al athr _ hmem
+  exact ⟨p, img, hres, by simpa [saveRawFiles, hbsdef] using himg, hread⟩
+
+/-- **C07_serialize_sees_unloaded**: when nothing raises, the store that serialization sees is
+    the unload step's result: position `k` holds its new tensor object (`fresh + k`) exactly
+    when the classification of `C07_threshold` / `C07_threshold_st` re-points it, and the
+    original object otherwise — for both backends. -/
+theorem C07_serialize_sees_unloaded (vs : List Init) (thr : Int) (maxShard : Option Nat)
+    (al : Option Nat) (athr : Nat) (fresh : Nat) (st : Store) (k : Nat) (hk : k < vs.length) :
+    (saveRun st (rawPlan vs thr fresh) none).1 k =
+      (if (unloadRaw vs thr maxShard al athr)[k]? = some .same then st k else some (fresh + k)) ∧
+    (saveRun st (stPlan vs thr fresh) none).1 k =
+      (if (unloadSt vs thr maxShard)[k]? = some .same then st k else some (fresh + k)) := by
+  constructor
+  · have hthr := C07_threshold vs thr maxShard al athr k hk
+    simp only [saveRun]
+    have hE := splitBy_mem_fst (extRaw thr) (memRaw thr) 0 vs k
+    have hM := splitBy_mem_snd (extRaw thr) (memRaw thr) 0 vs k
+    have hu : ∀ w t, Step.assign w t ∈ (rawPlan vs thr fresh).prog → t = some (fresh + w) :=
+      fun w t h => ((mem_rawPlan vs thr fresh w t).mp h).2
+    have hin : (∃ t, Step.assign k t ∈ (rawPlan vs thr fresh).prog) ↔
+        (extRaw thr vs[k] = true ∨ memRaw thr vs[k] = true) := by
+      constructor
+      · rintro ⟨t, ht⟩
+        have := ((mem_rawPlan vs thr fresh k t).mp ht).1
+        unfold splitRaw at this; rw [splitRawGo_eq] at this
+        rcases this with h | h
+        · obtain ⟨j, hj, hkj, hp⟩ := hE.mp h
+          have : j = k := by omega
+          subst this; exact Or.inl hp
+        · obtain ⟨j, hj, hkj, hp⟩ := hM.mp h
+          have : j = k := by omega
+          subst this; exact Or.inr hp
+      · intro h
+        refine ⟨some (fresh + k), (mem_rawPlan vs thr fresh k _).mpr ⟨?_, rfl⟩⟩
+        unfold splitRaw; rw [splitRawGo_eq]
+        rcases h with h | h
+        · exact Or.inl (hE.mpr ⟨k, hk, by simp, h⟩)
+        · exact Or.inr (hM.mpr ⟨k, hk, by simp, h⟩)
+    by_cases hc : vs[k].hasConst = true ∧ vs[k].isString = false
+    · by_cases hb : (vs[k].nbytes : Int) > thr
+      · obtain ⟨_, hr⟩ := hthr.2.1 hc.1 hc.2 hb
+        rw [execSteps_assigned fresh st _ k hu (hin.mpr (Or.inl (by simp [extRaw, hc.1, hc.2, hb])))]
+        simp [hr]
+      · by_cases he : vs[k].isExternal = true
+        · have hr := hthr.2.2.1 hc.1 hc.2 (by omega) he
+          rw [execSteps_assigned fresh st _ k hu
+            (hin.mpr (Or.inr (by simp [memRaw, hc.1, hc.2, hb, he])))]
+          simp [hr]
+        · have hr := hthr.2.2.2 (Or.inr (Or.inr ⟨by omega, by simpa using he⟩))
+          rw [execSteps_untouched]
+          · simp [hr]
+          · intro t ht
+            rcases hin.mp ⟨t, ht⟩ with h | h
+            · simp [extRaw, hb] at h
+            · simp [memRaw, he] at h
+    · have hr := hthr.2.2.2 (by
+        by_cases h : vs[k].hasConst = true
+        · right; left
+          have : ¬ vs[k].isString = false := fun h2 => hc ⟨h, h2⟩
+          simpa using this
+        · left; simpa using h)
+      rw [execSteps_untouched]
+      · simp [hr]
+      · intro t ht
+        rcases hin.mp ⟨t, ht⟩ with h | h
+        · simp only [extRaw, Bool.and_eq_true, Bool.not_eq_true'] at h
+          exact hc ⟨h.1.1, h.1.2⟩
+        · simp only [memRaw, Bool.and_eq_true, Bool.not_eq_true'] at h
+          exact hc ⟨h.1.1.1, h.1.1.2⟩
+  · have hthr := C07_threshold_st vs thr maxShard k hk
+    simp only [saveRun]
+    have hE := splitBy_mem_fst (extSt thr) (memSt thr) 0 vs k
+    have hM := splitBy_mem_snd (extSt thr) (memSt thr) 0 vs k
+    have hu : ∀ w t, Step.assign w t ∈ (stPlan vs thr fresh).prog → t = some (fresh + w) :=
+      fun w t h => ((mem_stPlan vs thr fresh w t).mp h).2
+    have hin : (∃ t, Step.assign k t ∈ (stPlan vs thr fresh).prog) ↔
+        (extSt thr vs[k] = true ∨ memSt thr vs[k] = true) := by
+      constructor
+      · rintro ⟨t, ht⟩
+        have := ((mem_stPlan vs thr fresh k t).mp ht).1
+        unfold splitSt at this; rw [splitStGo_eq] at this
+        rcases this with h | h
+        · obtain ⟨j, hj, hkj, hp⟩ := hE.mp h
+          have : j = k := by omega
+          subst this; exact Or.inl hp
+        · obtain ⟨j, hj, hkj, hp⟩ := hM.mp h
+          have : j = k := by omega
+          subst this; exact Or.inr hp
+      · intro h
+        refine ⟨some (fresh + k), (mem_stPlan vs thr fresh k _).mpr ⟨?_, rfl⟩⟩
+        unfold splitSt; rw [splitStGo_eq]
+        rcases h with h | h
+        · exact Or.inl (hE.mpr ⟨k, hk, by simp, h⟩)
+        · exact Or.inr (hM.mpr ⟨k, hk, by simp, h⟩)
+    by_cases hc : vs[k].hasConst = true ∧ vs[k].isString = false
+    · by_cases hb : (vs[k].nbytes : Int) < thr
+      · by_cases he : vs[k].isExternal = true
+        · have hr := hthr.2.2.1 hc.1 hc.2 hb he
+          rw [execSteps_assigned fresh st _ k hu
+            (hin.mpr (Or.inr (by simp [memSt, hc.1, hc.2, hb, he])))]
+          simp [hr]
+        · have hr := hthr.2.2.2 (Or.inr (Or.inr ⟨hb, by simpa using he⟩))
+          rw [execSteps_untouched]
+          · simp [hr]
+          · intro t ht
+            rcases hin.mp ⟨t, ht⟩ with h | h
+            · simp [extSt, hb] at h
+            · simp [memSt, he] at h
+      · obtain ⟨_, hr⟩ := hthr.2.1 hc.1 hc.2 (by omega)
+        rw [execSteps_assigned fresh st _ k hu (hin.mpr (Or.inl (by simp [extSt, hc.1, hc.2, hb])))]
+        simp [hr]
+    · have hr := hthr.2.2.2 (by
+        by_cases h : vs[k].hasConst = true
+        · right; left
+          have : ¬ vs[k].isString = false := fun h2 => hc ⟨h, h2⟩
+          simpa using this
+        · left; simpa using h)
+      rw [execSteps_untouched]
+      · simp [hr]
+      · intro t ht
+        rcases hin.mp ⟨t, ht⟩ with h | h
+        · simp only [extSt, Bool.and_eq_true, Bool.not_eq_true'] at h
+          exact hc ⟨h.1.1, h.1.2⟩
+        · simp only [memSt, Bool.and_eq_true, Bool.not_eq_true'] at h
+          exact hc ⟨h.1.1.1, h.1.1.2⟩
 
 /-- every placement names an existing shard (each tensor is in exactly one data file) -/
 theorem C07_placement_shard (sizes : List Nat) (m : Nat) (al : Option Nat) (thr : Nat) :
@@ -848,7 +1178,6 @@ theorem C07_placement_shard (sizes : List Nat) (m : Nat) (al : Option Nat) (thr 
 -- non-vacuity of the hypotheses, and their necessity where they exclude something
 example : (reorder [(0, [1, 2]), (2, [3]), (3, [4])] [2, 0, 1]).Perm [(0, [1, 2]), (2, [3]), (3, [4])] := by
   decide
-example : ∀ p ∈ [(2, some 9), (1, none)], p.1 ∈ [1, 2, 2] := by decide
 -- without `total ≠ 1` the name does not depend on the index (a single shard keeps the base name)
 example : shardFilename "m.data".toList 1 1 none = shardFilename "m.data".toList 2 1 none := by decide
 -- overlapping writes are order dependent: the disjointness hypothesis of C07_readback is needed
@@ -862,6 +1191,6 @@ example : shardSt id (some 10) [0, 100, 1, 0, 9, 1] = [[0], [100], [1, 0, 9], [1
 example : shardFilename "d/m.fp16.data".toList 3 12 none = "d/m-00003-of-00012.fp16.data".toList := by decide
 example : (unloadRaw [⟨10, false, true, false⟩, ⟨300, false, true, false⟩, ⟨5, true, true, false⟩] 256 none none 0) =
     [.same, .external ⟨0, 1, 0, 300⟩, .memory] := by decide
-example : (saveStore (fun v => some v) [1, 2, 2] [(2, some 9)] .serialize).1 2 = some 9 := by decide
+example : (saveRun (fun v => some v) (rawPlan [⟨10, false, true, false⟩, ⟨300, false, true, false⟩] 256 100) none).1 1 = some 101 := by decide
 
 end IrVerif.Layout
